@@ -20,6 +20,14 @@ class Inconclusive(Exception):
     pass
 
 
+class SutCrash(Exception):
+    """The driver process died of a panic raised inside the code under test (clover or a module it
+    depends on) in a goroutine the harness cannot guard - e.g. a store's background writer."""
+    def __init__(self, args, output):
+        Exception.__init__(self, "the code under test crashed the process")
+        self.cmd_args, self.output = args, output
+
+
 class Ctx:
     def __init__(self, root, prop, tier, seed):
         self.root, self.prop, self.tier, self.seed = root, prop, tier, seed
@@ -106,6 +114,13 @@ def run_driver(ctx, args, timeout=1800, env_extra=None):
     r = subprocess.run([ctx.driver] + args, cwd=ctx.work, env=env, stdout=subprocess.PIPE,
                        stderr=subprocess.STDOUT, text=True, timeout=timeout)
     if r.returncode != 0:
+        m = re.search(r"(?s)\npanic: .*?\n\ngoroutine \d+ \[running\]:\n(.*?)(\n\n|$)", "\n" + r.stdout)
+        if m and "HARNESS PANIC" not in r.stdout:
+            frames = m.group(1)
+            first = frames.strip().splitlines()[0] if frames.strip() else ""
+            in_sut = ("ostafen/clover" in frames or "dgraph-io/badger" in frames or "go.etcd.io/bbolt" in frames)
+            if in_sut and not first.startswith("main.") and "verifharness" not in first:
+                raise SutCrash(args, r.stdout[-4000:])
         raise Inconclusive("driver failed (%s): %s" % (" ".join(args), r.stdout[-3000:]))
     return r.stdout
 
@@ -1126,6 +1141,29 @@ def run_check(root, prop, tier, seed, PLANS):
             STAGES[st["kind"]](ctx, st)
         if ctx.violations:
             rc, status = 1, "violations"
+    except SutCrash as ex:
+        # a panic outside any call the harness guards.  It is a verdict only for the properties that
+        # speak about it (C20: never panics; C15: one backend crashes where the others do not), and
+        # only if it happens again when the same driver command is repeated.
+        again = subprocess.run([ctx.driver] + ex.cmd_args, cwd=ctx.work, env=dict(os.environ, **GOENV), stdout=subprocess.PIPE,
+                               stderr=subprocess.STDOUT, text=True)
+        if ctx.prop in ("C15", "C20") and again.returncode != 0 and "panic:" in again.stdout:
+            rdir = os.path.join(os.environ.get("VERIF_REPLAY_DIR") or os.path.join(ctx.root, "replays"), ctx.prop)
+            os.makedirs(rdir, exist_ok=True)
+            path = os.path.join(rdir, "crash-seed%d.json" % ctx.seed)
+            with open(path, "w") as f:
+                json.dump({"property": ctx.prop, "replay_fn": "drivercrash", "seed": ctx.seed, "tier": ctx.tier,
+                           "driver_args": ex.cmd_args, "note": "the code under test panicked in a goroutine of its own and took the process down (twice)",
+                           "output_tail": ex.output[-2500:]}, f, indent=1)
+            ctx.violations.append({"replay": path, "invariant": "NoPanic", "event": {"op": "process"}})
+            print("VIOLATION property=%s replay=%s" % (ctx.prop, path), flush=True)
+            ctx.log("  the process died of a panic inside the code under test: %s" % ex.output.strip().splitlines()[0][:300])
+            rc, status = 1, "violations"
+        else:
+            ctx.log("INCONCLUSIVE: the code under test crashed the driver process: %s" % ex.output[-1500:])
+            rc, status = 2, "inconclusive: driver crashed inside the code under test"
+            if ctx.violations:
+                rc = 1
     except Inconclusive as ex:
         ctx.log("INCONCLUSIVE: %s" % ex)
         rc, status = 2, "inconclusive: %s" % str(ex)[:300]
@@ -1164,6 +1202,17 @@ def run_replay(root, path, PLANS):
             rc = 1 if ctx.violations else 0
             if rc == 0:
                 print("replay conforms: property=%s" % prop)
+        elif rep.get("replay_fn") == "drivercrash":
+            # files of the original run lived in its scratch directory: use this run's
+            dargs = [os.path.join(ctx.work, os.path.basename(a)) if "/.work/" in a else a for a in rep["driver_args"]]
+            r = subprocess.run([ctx.driver] + dargs, cwd=ctx.work, env=dict(os.environ, **GOENV), stdout=subprocess.PIPE,
+                               stderr=subprocess.STDOUT, text=True)
+            if r.returncode != 0 and "panic:" in r.stdout:
+                print("VIOLATION property=%s replay=%s" % (prop, path))
+                rc = 1
+            else:
+                print("replay conforms: property=%s" % prop)
+                rc = 0
         elif "replay_fn" in rep:
             from . import plans as P
             rc = P.REPLAYS[rep["replay_fn"]](ctx, rep)
